@@ -51,6 +51,11 @@ def replay_kani(ob, r, ctx):
     cap = max(2 * ob.timeout, 1200) if r.engine == 'K-model' else 600
     env = vlib.env_offline({'RUSTFLAGS': ob.rustflags}) if getattr(ob, 'rustflags', None) else None
     rc, out, secs = run(cmd, timeout=cap, mem_gb=max(40, ob.mem_gb), env=env)
+    if r.engine == 'K-model' and 'CBMC failed with status 134' in out and 'kani_concrete_playback_' not in out:
+        # CBMC 6.11 aborts with an internal invariant violation while it builds the TRACE of some harnesses in one array field-sensitivity mode: the
+        # counterexample exists, only the trace printer fails.  Ask once more in the other mode (the values are re-executed natively either way).
+        cmd2 = cmd.replace(engines.CBMC_ARGS, '') if engines.CBMC_ARGS in cmd else cmd + engines.CBMC_ARGS
+        rc, out, secs = run(cmd2, timeout=cap, mem_gb=max(40, ob.mem_gb), env=env)
     tests = re.findall(r'fn (kani_concrete_playback_\w+)', out)
     body = ['--- Kani concrete playback (inplace) output tail ---', out[-3000:], '']
     if not tests:
